@@ -43,7 +43,7 @@ func (C19) Generate(c *Ctx, r *Rand, index int) *Scenario {
 	}
 	opts := MultiOpts{MaxFiles: 3, MaxDocs: 3, AllowStdin: true, AllowEmpty: false, Format: format, PlainOnly: rs.Chance(1, 2)}
 	e := GenExprWhere(r.Fork("expr"), func(e Expr) bool {
-		return !strings.Contains(e.Family, "error") && !strings.Contains(e.Family, "splitdoc")
+		return !strings.Contains(e.Family, "error") && !strings.Contains(e.Family, "splitdoc") && !readsComments(e.S)
 	})
 	out := Pick(rs, []string{"json0", "json0", "json0", "yaml", "props"})
 	var argv []string
@@ -196,7 +196,7 @@ func (C19) Generate(c *Ctx, r *Rand, index int) *Scenario {
 		sc.Meta["bad_id"] = d.ID
 		// the other half of the expression must not touch what the failing half selects by
 		e = GenExprWhere(r.Fork("expr-ro"), func(e Expr) bool {
-			return !e.Mutating && !strings.Contains(e.Family, "error") && !strings.Contains(e.Family, "splitdoc") && !strings.Contains(e.Family, "literal")
+			return !e.Mutating && !strings.Contains(e.Family, "error") && !strings.Contains(e.Family, "splitdoc") && !strings.Contains(e.Family, "literal") && !readsComments(e.S)
 		})
 		// an operation that fails only on the selected document (`error` fires on an empty context too)
 		fail := Pick(rf, []string{"(.id - 1)", "(.id | to_number)", "(.id | keys)", "(.id | from_unix)"})
